@@ -122,6 +122,9 @@ type Run struct {
 	// NonDeterministic marks clauses whose witnesses are schedule dependent and therefore
 	// are not required to reproduce from the replay file.
 	nondetClauses map[string]bool
+	// watchdogClauses are decided by a wall-clock watchdog (a step did not finish in time): a firing that does not
+	// reproduce in a fresh process is a slow machine, not a witness, and decides nothing about that one case.
+	watchdogClauses map[string]bool
 }
 
 var (
@@ -279,6 +282,16 @@ func (r *Run) Exhaustive(b bool)   { r.exhaustive = b }
 func (r *Run) Assume(s ...string)  { r.assumptions = append(r.assumptions, s...) }
 func (r *Run) NonDeterministic(clause string) { r.nondetClauses[clause] = true }
 
+// Watchdog declares a clause whose only evidence is a wall-clock watchdog. Its witnesses are replayed up to three
+// times in fresh processes; one that never reproduces is reported as WATCHDOG-UNCONFIRMED and counted in the
+// evidence, and the run becomes inconclusive only if more than three signatures end like that.
+func (r *Run) Watchdog(clause string) {
+	if r.watchdogClauses == nil {
+		r.watchdogClauses = map[string]bool{}
+	}
+	r.watchdogClauses[clause] = true
+}
+
 // Require makes the run inconclusive unless counter name reached min: a monitor that saw nothing decides nothing.
 func (r *Run) Require(name string, min int64) { r.requires[name] = min }
 
@@ -388,21 +401,33 @@ func (r *Run) finish() {
 		rec.replay = p
 		rec.confirmed = true
 		if rec.v.Case != nil && !r.noReconf && !r.nondetClauses[rec.v.Clause] {
-			cmd := exec.Command(exe, "--replay", p, "--expect-sig", sig)
-			cmd.Env = os.Environ()
-			out, err := runWithTimeout(cmd, 10*time.Minute)
-			if err == nil || !bytes.Contains(out, []byte("REPLAY-VIOLATION")) {
-				rec.confirmed = false
-				rec.unstable = true
+			tries := 1
+			if r.watchdogClauses[rec.v.Clause] {
+				tries = 3
 			}
+			rec.confirmed = false
+			for t := 0; t < tries && !rec.confirmed; t++ {
+				cmd := exec.Command(exe, "--replay", p, "--expect-sig", sig)
+				cmd.Env = os.Environ()
+				out, err := runWithTimeout(cmd, 10*time.Minute)
+				rec.confirmed = err != nil && bytes.Contains(out, []byte("REPLAY-VIOLATION"))
+			}
+			rec.unstable = !rec.confirmed
 		}
 	}
 
-	nViol, nKnown, nUnstable := 0, 0, 0
+	nViol, nKnown, nUnstable, nWatchdog := 0, 0, 0, 0
+	var watchdogSigs []string
 	var lines []string
 	knownSeen := map[int]bool{}
 	for _, sig := range r.violOrder {
 		rec := r.viol[sig]
+		if rec.unstable && r.watchdogClauses[rec.v.Clause] {
+			nWatchdog++
+			watchdogSigs = append(watchdogSigs, sig)
+			lines = append(lines, fmt.Sprintf("WATCHDOG-UNCONFIRMED property=%s sig=%s replay=%s (a wall-clock watchdog fired once and in none of three fresh processes: that case decides nothing)", r.ID, sig, rec.replay))
+			continue
+		}
 		if rec.unstable {
 			nUnstable++
 			lines = append(lines, fmt.Sprintf("UNCONFIRMED property=%s sig=%s replay=%s (did not reproduce in a fresh process: inconclusive)", r.ID, sig, rec.replay))
@@ -432,6 +457,12 @@ func (r *Run) finish() {
 		if r.counters[name] < min {
 			r.inconcl = append(r.inconcl, fmt.Sprintf("monitor %q observed %d events, needs >= %d", name, r.counters[name], min))
 		}
+	}
+	if nWatchdog > 0 {
+		r.extra["watchdog_firings_not_reproduced"] = watchdogSigs
+	}
+	if nWatchdog > 3 {
+		r.inconcl = append(r.inconcl, fmt.Sprintf("%d watchdog firings did not reproduce: the machine is too slow for the time limits of this check", nWatchdog))
 	}
 	if nUnstable > 0 {
 		r.inconcl = append(r.inconcl, fmt.Sprintf("%d violation(s) did not reproduce from their replay file", nUnstable))
